@@ -240,6 +240,14 @@ def env(ctx):
     for name in FILES:
         with open(os.path.join(wd, name), "wb") as f:
             f.write(file_bytes(name))
+    # the working directory of this worker process is a DECOY: it holds a file for every source name, with other bytes.  A
+    # source named in a command file belongs to the project (the search path handed to SPSDK), wherever the tool is started
+    decoy = os.path.join(os.path.abspath(wd), "decoy_cwd")
+    os.makedirs(os.path.join(decoy, "sub"), exist_ok=True)
+    for name in FILES:
+        with open(os.path.join(decoy, name), "wb") as f:
+            f.write(bytes(b ^ 0xFF for b in file_bytes(name)) + b"decoy")
+    os.chdir(decoy)
     kek = bytes(range(0x40, 0x60))
     with open(os.path.join(wd, "kek.txt"), "w", encoding="utf-8") as f:
         f.write(kek.hex())
